@@ -37,6 +37,8 @@ FIELDS = [
     # a debug field that goes on over the end of the line
     "{a=\n}", "{a = \n!r}", "{a=\n:>3}", "{a\n=}", "{a=!r\n}", "{a # c\n=}", "{'#' + a=}",
     # fields nested in format specs two, three and four levels deep (CPython: two are fine, then 'nested too deeply')
+    # a debug field with a format spec that holds an escape, a nested field, a line continuation
+    "{a=:\\t>4}", "{a=!r:\\x41^{w}}", "{a=:\\\n>3}", "{a = :{w}\\N{DIGIT ONE}}",
     "{a:{w:{p}}}", "{a:{w:{p:{q}}}}", "{a:x{w:y{p}z}}", "{a:{w!r:{p}}}", "{a! r}", "{a !r}", "{a!\nr}",
 ]
 ADJ = ["'s' {F}", "{F} 's'", "{F} {F}", "{F} {G}", "f({F}, {{}})", "x = {F}; y = {{1: 2}}", "{F} if a else {{}}", "b'x' {F}", "{F}\n{G}\n", "({F}\n 's'\n 't')",
@@ -99,8 +101,7 @@ def blank_insertions() -> Iterator[str]:
     where blanks are not allowed inside a replacement field (after '!', inside ':=' ...) CPython rejects the text."""
     seen: set[str] = set()
     for f0 in FIELDS:
-        for q in ("'", '"""'):
-            t = f"f{q}x{f0}y{q}\n"
+        for q, t in [(q, t) for q in ("'", '"""') for t in (f"f{q}x{f0}y{q}\n", f"f{q}\\\\{f0}\\\\{q}\n")]:
             for k in range(1 + len(q), len(t) - len(q) - 1):
                 for ins in (" ", "\n", "\t", "\\\n"):
                     u = t[:k] + ins + t[k:]
